@@ -45,6 +45,11 @@ var c20Scripts = []string{
 	// python that starts with a placeholder and ends with the closing braces of a nested literal
 	"${{ env.PRELUDE }}\nimport os PF06\nd = {'k': {'v': 1}}",
 	"${{ inputs.x }} = {'a': {'b': 2}} PF07 {{}}",
+	// closing braces before the first placeholder (a Go template of another tool, a nested literal)
+	"docker ps --format '{{.ID}}' SC2046\necho \"${{ github.sha }}\" SC2086",
+	"d = {'a': {'b': 1}} PF08\nprint(${{ github.run_id }}) PF09",
+	// the same issue printed twice (as with -x for two sourced files): two diagnostics
+	"echo twice SC2999",
 	// an issue shellcheck locates in the first line of its input (whole-script / parse-level problems)
 	"echo whole script problem SC1072",
 	"echo $Z SC2086 and SC1091 in one script",
@@ -96,6 +101,9 @@ func genC20Workflow(c *Chooser, wi int) string {
 		}
 		if s := c20Shell(c, "world.jobshell"); s != "" && c.Weighted("world.hasjobshell", 1, 3) {
 			fmt.Fprintf(&b, "    defaults:\n      run:\n        shell: %s\n", s)
+		} else if c.Weighted("world.jobwdonly", 1, 6) {
+			// job defaults that say nothing about the shell: the workflow's default shell still applies
+			b.WriteString("    defaults:\n      run:\n        working-directory: sub\n")
 		}
 		b.WriteString("    steps:\n")
 		nsteps := 1 + c.Int("world.nsteps", 4)
@@ -453,7 +461,7 @@ func (c20) Eval(c *Chooser, env *Env) *Outcome {
 		n := 1 + c.Int("fault.n", 2)
 		for i := 0; i < n; i++ {
 			e := expect[c.Int("fault.inv", len(expect))]
-			kinds := []ToolFault{TFCannotStart, TFKilled, TFKilledOutput, TFNonzeroEmpty, TFEpipe}
+			kinds := []ToolFault{TFCannotStart, TFKilled, TFKilledOutput, TFNonzeroEmpty, TFEpipe, TFExit137}
 			if e.Tool == "shellcheck" {
 				kinds = append(kinds, TFGarbage, TFEmptyOK, TFJSONGarbage, TFNullElement)
 			} else {
